@@ -106,3 +106,9 @@ V('C14', 'material-pointer-resolved-first', 'edb/server/compiler/sertypes.py',
         links.append(not ptr.is_property(ctx.schema))
         cardinalities.append(cardinality_from_ptr(ptr, ctx.schema))
 ''', None)
+
+# round 5: the stored seeded breaks this property's check reports, replayed as variants
+from sa.selftest import VP  # noqa
+VP('C14', 'C14-e1', 'C14.L', 'memo-keys')
+VP('C14', 'C14-e2', 'C14.R8', 'param=links_props')
+VP('C14', 'C14-e3', 'C14.R8', 'element_names.append')
